@@ -269,7 +269,7 @@ def native(fn, args):
         r = fn(*args)
     except Exception as e:
         return False, f'raised {type(e).__name__}: {e}'[:400]
-    if r is True:
+    if r is True or (type(r).__name__ in ('bool_', 'bool') and bool(r)):
         return True, 'ok'
     return False, f'returned {r!r}'[:400]
 
